@@ -173,6 +173,23 @@ func (c *channel) enqueue(req request, responseChan chan<- response, streaming b
 		c.deleteRouter(req.msg.Metadata.MessageID)
 		return
 	case c.sendQ <- req:
+		// the request may have been put into the buffer of a sender that has
+		// stopped (or is about to); make sure it is answered.
+		if c.parentCtx.Err() != nil {
+			c.drainSendQ()
+		}
+	}
+}
+
+// drainSendQ answers the requests left in the send queue when the channel is closed.
+func (c *channel) drainSendQ() {
+	for {
+		select {
+		case req := <-c.sendQ:
+			c.routeResponse(req.msg.Metadata.MessageID, response{nid: c.node.ID(), err: fmt.Errorf("channel closed")})
+		default:
+			return
+		}
 	}
 }
 
@@ -243,6 +260,7 @@ func (c *channel) sender() {
 	for {
 		select {
 		case <-c.parentCtx.Done():
+			c.drainSendQ()
 			return
 		case req = <-c.sendQ:
 		}
@@ -259,6 +277,11 @@ func (c *channel) sender() {
 		}
 		// else try to send message
 		err := c.sendMsg(req)
+		if err == nil && c.parentCtx.Err() != nil {
+			// the channel was closed meanwhile; there may be no receiver left to
+			// deliver a reply or to report that the stream is down.
+			err = fmt.Errorf("channel closed")
+		}
 		if err != nil {
 			// return the error
 			c.routeResponse(req.msg.Metadata.MessageID, response{nid: c.node.ID(), err: err})
@@ -290,6 +313,8 @@ func (c *channel) receiver() {
 
 		select {
 		case <-c.parentCtx.Done():
+			// nobody is left to deliver replies: fail the calls still waiting for one
+			c.cancelPendingMsgs()
 			return
 		default:
 		}
